@@ -484,6 +484,12 @@ func (v *Visitor) Visit(s *df.AnalyzerState, source df.NodeWithTrace) {
 
 			closureNode := graphNode.ParentNode()
 
+			if closureNode.ClosureSummary == nil {
+				// Ignore the closure, it is not reachable (like callees without summary).
+				logger.Warnf("Missing closure summary for bound variable %v at %v\n", graphNode, graphNode.Position(s))
+				break
+			}
+
 			if !closureNode.ClosureSummary.Constructed {
 				if ignoreNonSummarized {
 					break
@@ -648,6 +654,12 @@ func (v *Visitor) Visit(s *df.AnalyzerState, source df.NodeWithTrace) {
 					graphNode.SetDestClosure(destClosureSummary)
 					s.FlowGraph.Sync()
 				}
+			}
+
+			if destClosureSummary == nil {
+				// Ignore the closure, it is not reachable (like callees without summary).
+				logger.Warnf("Missing closure summary for bound label %v at %v\n", graphNode, graphNode.Position(s))
+				break
 			}
 
 			if len(destClosureSummary.ReferringMakeClosures) == 0 {
